@@ -234,7 +234,9 @@ def stochastic_raytracing(  # TODO: add test
             light = light and not grid[pos].blocks_vision
 
     probs = np.nan_to_num(counts_num / counts_den)
-    visibility = rng.random(probs.shape) <= probs
+    # NOTE: strict inequality;  random() can return exactly 0.0, which must
+    # not reveal cells with zero probability (and is always below 1.0)
+    visibility = rng.random(probs.shape) < probs
     return visibility
 
 
